@@ -264,8 +264,13 @@ class ttensor:
             return False
         if self.ndims != other.ndims:
             return False
+
+        def as_array(factor):
+            # A sparse factor matrix is compared through its dense form
+            return factor.toarray() if sparse.issparse(factor) else factor
+
         return self.core.isequal(other.core) and all(
-            np.array_equal(this_factor, other_factor)
+            np.array_equal(as_array(this_factor), as_array(other_factor))
             for this_factor, other_factor in zip(
                 self.factor_matrices, other.factor_matrices
             )
@@ -631,9 +636,14 @@ class ttensor:
                 len(full_samples[k].shape) == 2
                 and full_samples[k].shape[-1] == shape[k]
             ):
-                new_u.append(full_samples[k].dot(self.factor_matrices[k]))
+                new_u.append(full_samples[k] @ self.factor_matrices[k])
             else:
-                new_u.append(self.factor_matrices[k][full_samples[k], :])
+                factor = self.factor_matrices[k]
+                if sparse.issparse(factor):
+                    # Row selection needs a subscriptable sparse format
+                    new_u.append(factor.tocsr()[full_samples[k], :].tocoo())
+                else:
+                    new_u.append(factor[full_samples[k], :])
 
         return ttensor(self.core, new_u).full()
 
